@@ -8,6 +8,7 @@ import (
 	"sort"
 	"strconv"
 	"strings"
+	"time"
 	"testing"
 
 	"github.com/whatap/golib/logger/logfile"
@@ -56,6 +57,9 @@ type HistCase struct {
 	Day     int64 `json:"day"`   // start day (days since 2000-01-01 UTC)
 	MsOfDay int64 `json:"ms_of_day"`
 	Ops     []Op  `json:"ops"`
+	// Zone != 0: the process's local time zone (time.Local) is this many minutes east of UTC; the logger's days are UTC
+	// days whatever the host says
+	Zone int `json:"zone,omitempty"`
 }
 
 // ---- model ------------------------------------------------------------------------------------------
@@ -382,6 +386,11 @@ func runHist(c HistCase) *pbt.Result {
 		panic(err)
 	}
 	defer os.RemoveAll(home)
+	if c.Zone != 0 {
+		old := time.Local
+		time.Local = time.FixedZone(fmt.Sprintf("UTC%+dmin", c.Zone), c.Zone*60)
+		defer func() { time.Local = old }()
+	}
 	clk := &vclock{}
 	defer clk.reset()
 	clk.set(base2k + c.Day*dayMs + c.MsOfDay)
@@ -421,6 +430,9 @@ func runHist(c HistCase) *pbt.Result {
 			key := prefixes[op.P%len(prefixes)]
 			if byID {
 				key = idKeys[op.P%len(idKeys)]
+				if op.P >= 1000 {
+					key = fmt.Sprintf("WA9%05d", op.P) // one of many ids (a component that numbers its messages)
+				}
 			}
 			mk := marker("", nlog)
 			lo := clk.now()
@@ -643,12 +655,28 @@ func drawHist(t *rapid.T) HistCase {
 		}
 		c.Ops = append(c.Ops, op)
 	}
+	if rapid.IntRange(0, 9).Draw(t, "manyids?") == 0 {
+		// many different ids at once, and all of them again right away: the limiter remembers each of them, however many
+		// there are (below its capacity of 1000)
+		n := rapid.SampledFrom([]int{80, 160, 320}).Draw(t, "nids")
+		at := rapid.IntRange(0, len(c.Ops)).Draw(t, "floodat")
+		var flood []Op
+		for pass := 0; pass < 2; pass++ {
+			for j := 0; j < n; j++ {
+				flood = append(flood, Op{K: "log", API: "Println", P: 1000 + j, Tail: j % 7})
+			}
+		}
+		c.Ops = append(c.Ops[:at], append(flood, c.Ops[at:]...)...)
+	}
+	if rapid.IntRange(0, 2).Draw(t, "zone?") == 0 {
+		c.Zone = rapid.SampledFrom([]int{-300, -720, 330, 540, 780}).Draw(t, "zone")
+	}
 	return c
 }
 
 var specHist = pbt.Register(pbt.Spec[HistCase]{
 	Prop: "C17", Name: "logger-histories",
-	Rule:  "histories of 3-45 actions on a logger without background goroutine in a fresh temp home under a virtual clock: log over all 12 logging methods (ids/10-byte message prefixes from 5-element alphabets), advance (ms, days, to midnight +-, configured interval +-), cycle, ApplyConfig(level, interval, keep-days, rotation; keys may be absent), SetLevel, plant (own dated files of any age incl. keep-days boundary, own-prefix files whose date part is not a date, undated own files, foreign look-alikes, directories); oracle = file-system + rate-limiter model checked after every cycle and at the end; non-trivial = at least one date rotation and one retention pass (rotation on, keep-days >= 1) that removes at least one file and keeps at least one file besides the current log file; distinct by action list",
+	Rule:  "histories of 3-45 actions on a logger without background goroutine in a fresh temp home under a virtual clock: log over all 12 logging methods (ids/10-byte message prefixes from 5-element alphabets; one history in ten also logs 80-320 further ids and all of them again at once), in a third of the histories with the process's local zone set -12 h .. +13 h from UTC, advance (ms, days, to midnight +-, configured interval +-), cycle, ApplyConfig(level, interval, keep-days, rotation; keys may be absent), SetLevel, plant (own dated files of any age incl. keep-days boundary, own-prefix files whose date part is not a date, undated own files, foreign look-alikes, directories); oracle = file-system + rate-limiter model checked after every cycle and at the end; non-trivial = at least one date rotation and one retention pass (rotation on, keep-days >= 1) that removes at least one file and keeps at least one file besides the current log file; distinct by action list",
 	Quick: 3000, Thorough: 120000,
 	Draw: drawHist,
 	Run:  runHist,
